@@ -125,8 +125,9 @@ pub enum Traverse {
     Mixed(usize),
 }
 
-/// Drives a sequential query iterator in the requested mode; returns size_hint violations.
-pub fn drive<I: Iterator>(it: &mut I, mode: Traverse, map: &mut dyn FnMut(I::Item) -> Row, sink: &mut Vec<Row>, hints: &mut Vec<(usize, Option<usize>)>) {
+/// Drives a sequential query iterator in the requested mode.  The iterator is taken by value so that its
+/// own `fold` override is exercised (`<&mut I>::fold` would fall back to `next()`).
+pub fn drive<I: Iterator>(mut it: I, mode: Traverse, map: &mut dyn FnMut(I::Item) -> Row, sink: &mut Vec<Row>, hints: &mut Vec<(usize, Option<usize>)>) {
     match mode {
         Traverse::Next => loop {
             hints.push(it.size_hint());
@@ -337,6 +338,98 @@ pub fn run_query_case(ctx: &mut GridCtx, desc: &QDesc, seq: SeqFn, ent: EntFn) {
             if !rep.errors.is_empty() {
                 ctx.fail("C05", "allocator-misuse-in-query".into(), format!("[{}] {}", label, rep.describe()), label, wi);
             }
+        }
+    }
+}
+
+/// Query-time `Entries`: declared entry views (super) x requested sub-views, for every identifier.
+/// `ent(world, ids)` returns, per identifier, `None` when `Entries::entry` found nothing, else the result of
+/// the sub-view query.  `desc` describes the *sub* views and the filter.
+pub fn run_entries_case(ctx: &mut GridCtx, desc: &QDesc, ent: &dyn Fn(&mut W, &[Id]) -> Vec<(Id, Option<Option<Row>>)>) {
+    ctx.stats.instantiations += 1;
+    let label = desc.label;
+    for wi in 0..ctx.worlds.len() {
+        if ctx.only_world.map_or(false, |o| o != wi) {
+            continue;
+        }
+        let hist = ctx.worlds[wi].clone();
+        arena::begin(0);
+        comp::ledger_begin();
+        let mut fails: Vec<(String, String)> = Vec::new();
+        {
+            let mut ex = build_exec(&ctx.ops, &hist);
+            let ids: Vec<Id> = ex.m.issued.clone();
+            let got = ent(&mut ex.w, &ids);
+            ctx.stats.evaluations += 1;
+            let exp = desc.expected(&ex.m);
+            for (id, r) in &got {
+                ctx.stats.entry_queries += 1;
+                let live = ex.m.ents.contains_key(id);
+                match r {
+                    None => {
+                        if live {
+                            fails.push(("entries-entry-none-for-live".into(), format!("{:?}", id)));
+                        }
+                    }
+                    Some(q) => {
+                        if !live {
+                            fails.push(("entries-entry-some-for-dead".into(), format!("{:?}", id)));
+                            continue;
+                        }
+                        match (q, exp.get(id)) {
+                            (None, None) => {}
+                            (Some(_), None) => fails.push(("sub-view-query-some-for-nonmatching".into(), format!("{:?}", id))),
+                            (None, Some(_)) => fails.push(("sub-view-query-none-for-matching".into(), format!("{:?}", id))),
+                            (Some(r), Some(_)) => {
+                                ctx.stats.rows_checked += 1;
+                                if r.id.map_or(false, |x| x != *id) {
+                                    fails.push(("sub-view-query-wrong-identifier".into(), format!("{:?} vs {:?}", r.id, id)));
+                                }
+                                let mut r2 = r.clone();
+                                r2.id = Some(*id);
+                                let mut d2 = desc.clone();
+                                d2.with_id = true;
+                                let single: Model = Model { ents: ex.m.ents.iter().filter(|(k, _)| *k == id).map(|(k, v)| (*k, *v)).collect(), issued: vec![], res: ex.m.res };
+                                if let Some(f) = check_rows(&d2, &[r2], &single, "sub-view-query") {
+                                    fails.push(f);
+                                }
+                            }
+                        }
+                    }
+                }
+            }
+            // writes through mutable sub-views are seen by later reads of exactly those entities
+            let mut m2 = ex.m.clone();
+            for (_id, row) in m2.ents.iter_mut() {
+                if desc.matches(Model::mask_of(row)) {
+                    for c in 0..NC {
+                        if desc.writes(c) && c != 1 {
+                            if let Some(v) = row[c].as_mut() {
+                                *v = v.wrapping_add(WRITE_DELTA);
+                            }
+                        }
+                    }
+                }
+            }
+            let after = snap_vals(&snapshot(&mut ex.w));
+            if after != model_vals(&m2) {
+                fails.push(("writes-through-sub-views-misplaced".into(), format!("world {:?} model {:?}", after, model_vals(&m2))));
+            }
+            ctx.stats.writes_checked += 1;
+            let errs = comp::with_ledger(|l| l.errors.clone()).unwrap_or_default();
+            if !errs.is_empty() {
+                fails.push(("bad-value-observed".into(), format!("{:?}", errs)));
+            }
+        }
+        let sys: Vec<(String, String)> = arena::with_system(|| fails.iter().map(|(a, b)| (a.as_str().to_owned(), b.as_str().to_owned())).collect());
+        drop(fails);
+        drop(comp::ledger_end());
+        let rep = arena::end();
+        for (k, d) in sys {
+            ctx.fail("C03", k.replace(' ', "_"), format!("[{}] {}", label, d), label, wi);
+        }
+        if !rep.errors.is_empty() {
+            ctx.fail("C05", "allocator-misuse-in-entries-query".into(), format!("[{}] {}", label, rep.describe()), label, wi);
         }
     }
 }
